@@ -114,6 +114,17 @@ class Sc:
         return json.dumps(dict(name=self.name, steps=self.steps), separators=(",", ":"))
 
 
+def quota_probe(first_id, rm, tag="q"):
+    """observability suffix: with acknowledgements withheld, RM+2 QoS 1 publishes are initiated back to back;
+    a send quota that is too large shows as more than RM unacknowledged PUBLISH packets at the broker"""
+    st = [dict(op="hold")]
+    for k in range(rm + 2):
+        st.append(dict(op="pub", id=first_id + k, qos=1, msg="%s%d" % (tag, first_id + k)))
+    st.append(dict(op="advance", ms=1))
+    st.append(dict(op="unhold"))
+    return st
+
+
 def caps_props(r, rm=None):
     p = []
     if rm is not None: p.append([33, rm])
@@ -187,6 +198,24 @@ def gen_send(rng, idx):
     if r.random() < 0.5: s.add(op="hold"); s.held = True
     for _ in range(r.randrange(3, 14)):
         env_noise(s)
+    if r.random() < 0.25:
+        # the next connection announces another (or no) Receive Maximum; then QoS>0 traffic beyond the OLD limit
+        # with acknowledgements withheld, followed by a QoS 0 publish
+        rm2 = r.choice([None, None, 1, 2, 3])
+        s.add(op="connack", sp=-1, props=caps_props(r, rm2))
+        fault_step(s)
+        s.quiesce(ms=60000)
+        if s.held: s.add(op="unhold"); s.held = False
+        s.add(op="hold"); s.held = True
+        for _ in range((rm or 2) + 1): s.pub(r.choice([1, 2]))
+        s.pub(0)
+        s.add(op="advance", ms=1)
+        s.add(op="unhold"); s.held = False
+    elif r.random() < 0.6:
+        s.quiesce(ms=60000)
+        if s.held: s.add(op="unhold"); s.held = False
+        base = s.next_id; s.next_id += 8
+        s.steps += quota_probe(base, rm if rm is not None else 2)
     s.quiesce()
     t = r.random()
     if t < 0.3: s.add(op="cancel_all"); s.add(op="drain")
@@ -251,22 +280,33 @@ def gen_lifecycle(rng, idx):
     if r.random() < 0.2: s.add(op="set", auto_shutdown=0)
     for _ in range(r.randrange(0, 9)):
         env_noise(s, pfault=0.08)
-    # the terminal event, possibly with the preceding step left un-settled
-    if s.steps and r.random() < 0.3 and s.steps[-1]["op"] in ("pub", "sub", "unsub", "bpub", "fault", "ack"):
+    # the terminal event, possibly with the preceding step left un-settled, possibly made AHEAD of queued handlers
+    now = {}
+    k = r.random()
+    if k < 0.2:
+        # a write completes, its completion handler is queued, and the terminal call overtakes it
+        s.add(op="set", auto_write=0)
+        if r.random() < 0.5: s.pub(r.choice([0, 1, 2]))
+        else: s.sub()
+        s.add(op="wdeliver"); s.add(op="wend", ec=r.choice(["ok", "ok", "reset"]), nr=1)
+        now = dict(now=1)
+    elif k < 0.5 and s.steps and s.steps[-1]["op"] in ("pub", "sub", "unsub", "bpub", "fault", "ack"):
         s.steps[-1]["nr"] = 1
+        if r.random() < 0.5: now = dict(now=1)
     t = r.random()
     if t < 0.35:
-        s.add(op="cancel_all")
+        s.add(op="cancel_all", **now)
     elif t < 0.75:
-        s.add(op="disc", id=s.oid(), rc=r.choice([0, 4]), props=r.choice([[], [[31, "bye"]], [[38, "a", "b"], [17, 5]]]))
+        s.add(op="disc", id=s.oid(), rc=r.choice([0, 4]), props=r.choice([[], [[31, "bye"]], [[38, "a", "b"], [17, 5]]]), **now)
         if r.random() < 0.3: s.add(op="fault", ec="reset")
         if r.random() < 0.3: s.add(op="shutdown_ok")
         s.add(op="advance", ms=r.choice([0, 1, 4999, 5000, 6000]))
         s.add(op="advance", ms=6000)
     elif t < 0.85 and s.live:
-        s.add(op="cancel_op", id=r.choice(s.live), type="terminal")
+        s.add(op="cancel_op", id=r.choice(s.live), type="terminal", **now)
     else:
-        s.add(op="destroy")
+        s.add(op="destroy", **now)
+    if now: s.add(op="set", auto_write=1)
     s.add(op="drain")
     if r.random() < 0.3 and t < 0.75:
         # restart
@@ -402,7 +442,10 @@ def gen_crash_all(thorough=False):
     out = []
     for (name, pre, body) in _bases():
         head = [dict(op="cfg", hosts=2, ka=0, tseed=7)] + pre + [dict(op="run", id=1), dict(op="recv", id=2, loop=1)]
+        rmv = pre[0]["props"][0][1] if pre else None
         tail = [dict(op="quiesce", ms=150000)]
+        if rmv is not None:
+            tail = [dict(op="quiesce", ms=60000)] + quota_probe(50, rmv) + tail
         def emit(tag, arm):
             out.append(json.dumps(dict(name="crash-%s-%s" % (name, tag), steps=head + arm + body + tail), separators=(",", ":")))
         emit("none", [])
@@ -419,12 +462,128 @@ def gen_crash_all(thorough=False):
     return out
 
 
-FAMILIES = dict(send=gen_send, recv=gen_recv, lifecycle=gen_lifecycle, connect=gen_connect, caps=gen_caps, keepalive=gen_keepalive)
+# ----------------------------------------------------------------------------- hostile broker bytes (C19)
+def _hostile_bases():
+    import mqttenc as E
+    rs = [[31, "why"]]; up = [[38, "k", "v"]]
+    B = {
+        "connack": E.connack(0, 0, [[33, 10], [39, 1000], [19, 30]] + up),
+        "connack0": E.connack(0, 0),
+        "connack_sp": E.connack(1, 0, [[18, "assigned"], [26, "ri"], [28, "ref"]]),
+        "auth": E.auth(0x18, [[21, "m"], [22, "d"]]),
+        "pub0": E.publish("in/a", "h0|p", 0, ps=[[1, 1], [3, "ct"], [11, 5]] + up),
+        "pub1": E.publish("in/b", "h1|p", 1, pid=9, ps=[[8, "rt"], [9, "cd"]]),
+        "pub2": E.publish("in/c", "h2|p", 2, pid=10, ps=[[2, 60], [35, 3]]),
+        "puback": E.ack(4, 1, 0, rs), "puback_s1": E.ack(4, 1, 0x10, short=1), "puback_s2": E.ack(4, 1, short=2),
+        "pubrec": E.ack(5, 2, 0, up), "pubrec_fail": E.ack(5, 2, 0x97, rs),
+        "pubrel": E.ack(6, 10, 0), "pubrel_unknown": E.ack(6, 77, 0x92, rs),
+        "pubcomp": E.ack(7, 2, 0, rs),
+        "suback": E.suback(9, 3, [0, 2], rs + up), "suback_1code": E.suback(9, 3, [1]), "suback_3codes": E.suback(9, 3, [0, 1, 2]),
+        "suback_badcode": E.suback(9, 3, [0, 3]),
+        "unsuback": E.suback(11, 3, [0, 17], rs),
+        "disconnect": E.disconnect(0x8b, rs + [[28, "other"]]), "disconnect_s": bytes([0xe0, 0x00]),
+        "pingresp": E.pingresp(),
+        "connect_from_broker": bytes([0x10, 0x0d, 0, 4]) + b"MQTT" + bytes([5, 0, 0, 0, 0, 0, 0]),
+        "subscribe_from_broker": bytes([0x82, 0x06, 0, 5, 0, 0, 1]) + b"a" + bytes([0]),
+        "pingreq_from_broker": bytes([0xc0, 0x00]),
+    }
+    return B
+
+
+def _mutations(b, rng, full):
+    out = [("valid", b)]
+    n = len(b)
+    for k in range(1, n): out.append(("trunc%d" % k, b[:k]))
+    body = b[2:] if b[1] < 0x80 else b[1 + next(i for i in range(1, 5) if b[i] < 0x80):]
+    for name, rl in (("rl0", b"\x00"), ("rl1", b"\x01"), ("rlm1", bytes([max(0, len(body) - 1)])), ("rlp1", bytes([min(127, len(body) + 1)])),
+                     ("rl127", b"\x7f"), ("rl2b", bytes([0x80 | (len(body) & 0x7f), len(body) >> 7])), ("rl4max", b"\xff\xff\xff\x7f"),
+                     ("rl5", b"\xff\xff\xff\xff\x01"), ("rlhuge", b"\xff\xff\x03")):
+        out.append((name, b[:1] + rl + body))
+    if len(body) + 1 < 128:
+        out.append(("rlp1pad0", b[:1] + bytes([len(body) + 1]) + body + b"\x00"))      # one byte too many INSIDE the packet
+        out.append(("rlp1pad40", b[:1] + bytes([len(body) + 1]) + body + b"\x40"))
+    for f in range(16): out.append(("flags%x" % f, bytes([(b[0] & 0xf0) | f]) + b[1:]))
+    for t in range(16): out.append(("type%x" % t, bytes([(t << 4) | (b[0] & 0x0f)]) + b[1:]))
+    for i in range(1, n):
+        for x in ((0xff, 0x80, 0x01) if full else (0xff,)):
+            m = bytearray(b); m[i] ^= x; out.append(("flip%d_%02x" % (i, x), bytes(m)))
+        for v in ((0x00, 0xff, 0x7f) if full else ()):
+            m = bytearray(b); m[i] = v; out.append(("set%d_%02x" % (i, v), bytes(m)))
+    out.append(("tail", b + bytes(rng.randrange(256) for _ in range(rng.randrange(1, 9)))))
+    out.append(("double", b + b))
+    out.append(("garbage_first", bytes(rng.randrange(256) for _ in range(3)) + b))
+    return out
+
+
+def gen_hostile_all(seed, count, full=False):
+    rng = random.Random("hostile-%d" % seed)
+    cases = []
+    for name, b in _hostile_bases().items():
+        for (mn, mb) in _mutations(b, rng, full):
+            for ch in (0, 1, 3):
+                cases.append((name, mn, mb, ch))
+    if not full and len(cases) > count:
+        keep = [c for c in cases if c[1] in ("valid", "rl0", "rl1", "rlm1", "rlp1", "rl5", "rl4max", "rlp1pad0", "rlp1pad40")]
+        rest = [c for c in cases if c not in keep]
+        rng.shuffle(rest)
+        cases = keep + rest[:max(0, count - len(keep))]
+    out = []
+    for (name, mn, mb, ch) in cases:
+        hx = mb.hex()
+        steps = [dict(op="cfg", hosts=2, ka=0, tseed=11)]
+        if name.startswith("connack") or name == "auth":
+            # handshake phase: the hostile bytes arrive instead of the CONNACK
+            steps += [dict(op="hold", kinds=["CONNACK"]), dict(op="run", id=1), dict(op="recv", id=2, loop=1),
+                      dict(op="pub", id=10, qos=1, msg="m10")]
+            if ch: steps.append(dict(op="set", chunk=ch))
+            steps += [dict(op="bbytes", hex=hx), dict(op="advance", ms=1), dict(op="set", chunk=0), dict(op="unhold"), dict(op="quiesce", ms=200000)]
+            out.append(json.dumps(dict(name="hostile-hs-%s-%s-c%d" % (name, mn, ch), steps=steps), separators=(",", ":")))
+        # established phase (every base, including CONNACK-type packets arriving late)
+        steps = [dict(op="cfg", hosts=2, ka=0, tseed=11), dict(op="run", id=1), dict(op="recv", id=2, loop=1),
+                 dict(op="hold"), dict(op="hold", kinds=["PUBREL"]),
+                 dict(op="pub", id=10, qos=1, msg="m10"), dict(op="pub", id=11, qos=2, msg="m11"), dict(op="sub", id=12, topics=["hs/a", "hs/b"]),
+                 dict(op="bpub", qos=2, msg="x1")]
+        if ch: steps.append(dict(op="set", chunk=ch))
+        steps += [dict(op="bbytes", hex=hx), dict(op="advance", ms=1), dict(op="set", chunk=0), dict(op="unhold"), dict(op="quiesce", ms=200000)]
+        out.append(json.dumps(dict(name="hostile-es-%s-%s-c%d" % (name, mn, ch), steps=steps), separators=(",", ":")))
+    return out
+
+
+def gen_misbehave(rng, idx):
+    """a broker whose SUBACK / UNSUBACK has the wrong number of reason codes or an inadmissible code (C14 only)"""
+    s = Sc(rng, "misb-%d" % idx)
+    r = rng
+    s.cfg(hosts=2, ka=0, tseed=r.randrange(1, 1 << 30))
+    s.run()
+    s.add(op="hold", kinds=["SUBACK", "UNSUBACK"])
+    unsub = r.random() < 0.4
+    n = r.choice([1, 2, 3, 4])
+    i = s.sub(unsub=unsub, n=n)
+    good = UNSUBACK_RCS if unsub else SUBACK_RCS
+    bad = [c for c in (3, 4, 16, 17, 24, 64, 127, 129, 144, 146, 255, 1, 2) if c not in good]
+    codes = [r.choice(good) for _ in range(n)]
+    k = r.random()
+    if k < 0.25: codes = codes[:-1] if n > 1 else []                        # one too few
+    elif k < 0.45: codes = codes + [r.choice(good)]                          # one too many
+    elif k < 0.75: codes[r.randrange(n)] = r.choice(bad)                     # an inadmissible code in place
+    elif k < 0.9: codes.insert(r.randrange(n + 1), r.choice(bad))            # an extra, inadmissible code
+    # else: a correct acknowledgement (control)
+    if codes: s.add(op="ack", i=0, codes=codes, props=s.ackprops())
+    else: s.add(op="ack", i=0, codes=[r.choice(bad)])
+    s.add(op="advance", ms=1)
+    s.add(op="unhold")
+    s.quiesce()
+    return s.out()
+
+
+FAMILIES = dict(misbehave=gen_misbehave, send=gen_send, recv=gen_recv, lifecycle=gen_lifecycle, connect=gen_connect, caps=gen_caps, keepalive=gen_keepalive)
 
 
 def generate(family, seed, count):
     if family == "crash":
         return gen_crash_all(thorough=count > 5000)
+    if family == "hostile":
+        return gen_hostile_all(seed, count, full=count > 20000)
     rng = random.Random("%s-%d" % (family, seed))
     f = FAMILIES[family]
     return [f(rng, i) for i in range(count)]
